@@ -24,12 +24,14 @@ def classify(why):
     if "before the resize counter was advanced" in w or "without holding every lock" in w:
         props.add("C06")
         props.add("C01")
+    if "explicit resize request" in w:
+        props |= {"C01", "C06", "C10"}
     if not props:
         props.add("C01")
     return props
 
 
-SECTION_PROGRAMS = {"section-inserts-grows", "section-rehash-clear", "section-stream", "section-stream-restore"}
+SECTION_PROGRAMS = {"section-inserts-grows", "section-rehash-clear", "section-resize-vs-rehash", "section-stream", "section-stream-restore"}
 
 
 def regen_memorder():
@@ -46,6 +48,32 @@ def regen_memorder():
     if C.write_if_changed(os.path.join(C.LEAN, "Cuckoo", "Gen", "MemOrder.lean"), open(tmp).read()):
         msgs.append("T-C: Gen/MemOrder.lean changed")
     return True, msgs
+
+
+def regen_sync():
+    """T-E: synchronisation skeletons of the protocol functions, from the source text cross-checked with clang's AST"""
+    import os
+    import sys
+    gen = os.path.join(C.CACHE, "gen")
+    os.makedirs(gen, exist_ok=True)
+    tmp = os.path.join(gen, "Sync.lean")
+    rc, out, _ = C.sh([sys.executable, os.path.join(C.VERIF, "translate", "syncskel.py"), C.REPO, tmp, os.path.join(gen, "syncskel")])
+    if rc != 0:
+        return False, ["T-E: " + out.strip()[-1500:]]
+    msgs = []
+    if C.write_if_changed(os.path.join(C.LEAN, "Cuckoo", "Gen", "Sync.lean"), open(tmp).read()):
+        msgs.append("T-E: Gen/Sync.lean changed")
+    return True, msgs
+
+
+def regen_for(pid):
+    def f():
+        ok, msgs = regen_sync()
+        if pid == "C03":
+            ok2, msgs2 = regen_memorder()
+            ok, msgs = ok and ok2, msgs + msgs2
+        return ok, msgs
+    return f
 
 
 def tsan_runs(res, tier, known, modes=(0, 1, 2)):
@@ -110,8 +138,9 @@ def run(pid, tier, programs=None, phases=()):
     res = C.Result(pid, tier)
     known = [k for k in C.load_known().get("findings", []) if k.get("property") == pid]
     with C.Lock():
-        lean_ok, names = C.lean_phase(res, pid, gen_fn=regen_memorder if pid == "C03" else None, thorough_modules=["Cuckoo.Model.Proto"],
-                                      extra_props={"C01": ["C01Conc", "C01Red"], "C03": ["C01Red"], "C04": ["C04Live"], "C06": ["C06Conc", "C01Red"]}.get(pid, []))
+        lean_ok, names = C.lean_phase(res, pid, gen_fn=regen_for(pid), thorough_modules=["Cuckoo.Model.Proto"],
+                                      extra_props={"C01": ["C01Conc", "C01Red", "C01Sync"], "C03": ["C01Red", "C01Sync"], "C04": ["C04Live", "C01Sync"],
+                                                   "C06": ["C06Conc", "C01Red", "C01Sync"]}.get(pid, []))
     if pid == "C03":
         tsan_runs(res, tier, known)
     for ph in phases:
